@@ -114,6 +114,7 @@ func eanCheck(c *fw.Ctx, s string, unique bool) {
 		c.Violation("ean/kind", fmt.Sprintf("Metadata %v, want kind %q 1D", md, kind), short(s), "")
 		return
 	}
+	retainObserve(c, "ean", bc, s, 2)
 	bits, e2 := row1D(bc)
 	if e2 != nil {
 		c.Violation("ean/image", e2.Error(), short(s), "")
